@@ -73,9 +73,7 @@ pub fn vnd_obs(tag: u32, v: u64) { println!("OBS {} {}", tag, v); }
 #[cfg(not(kani))]
 pub fn vnd_is_replay() -> bool { true }
 /// run the i-th thread spawned so far (engine M only; natively threads run by themselves)
-#[cfg(not(kani))]
 pub fn vnd_run_spawned(_i: u32) {}
-#[cfg(not(kani))]
 pub fn vnd_spawned_count() -> u32 { 0 }
 
 #[cfg(kani)]
